@@ -79,6 +79,14 @@ def mutate(rnd, raw, gen):
     return b",".join(parts)
 
 
+OS_ERRORS = {
+    "unreach": lambda: OSError(101, "Network is unreachable"),
+    "reset": lambda: ConnectionResetError(104, "Connection reset by peer"),
+    "refused": lambda: ConnectionRefusedError(111, "Connection refused"),
+    "perm": lambda: PermissionError(1, "Operation not permitted"),
+}
+
+
 def gen_script(rnd):
     n = rnd.choice([0, 1, 1, 2, 3, 5, 8])
     script = []
@@ -136,9 +144,23 @@ def cases(tier, seed):
                 script.append([r2.choice([0.05, 0.2, 0.49]), gen, ",".join(parts).encode(),
                                [host, 49000 + gen]])
             yield {"script": sorted(script, key=lambda x: x[0]), "unicast": None}
+    # the OS reports socket errors while the search runs (sendto() failing for the broadcast
+    # address, an ICMP port unreachable from a host that is no console): they are no answers,
+    # the search goes on and every console answering later is reported
+    for gen in (4, 5):
+        resp = valid_response(random.Random(gen), gen)
+        for kind in sorted(OS_ERRORS):
+            for et, rt, uni in ((1e-4, 0.7, None), (0.05, 0.2, "10.1.2.3"), (0.6, 1.2, None),
+                                (0.3, None, "10.1.2.3")):
+                yield {"script": [] if rt is None else [[rt, gen, resp, ["10.1.2.3", 49005]]],
+                       "errors": [[et, gen, kind], [et + 0.01, 9 - gen, kind]], "unicast": uni}
     n = 400 if tier == "quick" else 200000
     for i in range(n):
-        yield {"script": gen_script(rnd), "unicast": "10.1.2.3" if i % 4 == 0 else None}
+        c = {"script": gen_script(rnd), "unicast": "10.1.2.3" if i % 4 == 0 else None}
+        if i % 5 == 2:
+            c["errors"] = [[rnd.choice([1e-4, 0.05, 0.3, 0.5001, 0.9, 1.2]), rnd.choice((4, 5)),
+                            rnd.choice(sorted(OS_ERRORS))] for _ in range(rnd.randint(1, 3))]
+        yield c
     # the public discoverer object used for several searches in a row
     for i in range(24 if tier == "quick" else 4000):
         rounds = [[rnd.choice([0.2, 0.7, 1.2])] * rnd.choice([0, 1, 1, 2])
@@ -274,6 +296,12 @@ def run_case(case):
                     if getattr(tr.sock, "bound", (None, None))[1] == UPORT[g]:
                         tr.deliver(data, tuple(addr))
             loop.call_at(t, deliver)
+        for t, g, kind in case.get("errors", ()):
+            def report(g=g, kind=kind):
+                for tr in net.udp:
+                    if getattr(tr.sock, "bound", (None, None))[1] == UPORT[g]:
+                        tr.report_error(OS_ERRORS[kind]())
+            loop.call_at(t, report)
         t0 = loop.time()
         r = await H.probe(log, "discover", pyairtouch.discover(case["unicast"]))
         out["ret_t"] = loop.time() - t0
@@ -368,6 +396,9 @@ def run_case(case):
         obs["duplicates_collapsed"] = 1
     if case["unicast"]:
         obs["unicast_mode"] = 1
+    nerr = sum(1 for e in log.events if e[2] == "UDP.error")
+    if nerr:
+        obs["os_errors_reported_during_a_search"] = nerr
     if any(e[2] == "LOOP.unhandled" for e in log.events):
         obs["exception_reported_by_loop_for_bad_datagram"] = 1
     obs["searches_judged"] = 1
